@@ -37,6 +37,10 @@
   (`toMs_output_tame2`), so the order clause of `PulsesTame` cannot be weakened through `Tame2`; pulse chains are
   outside and, by evaluation, converted correctly (`ms_roundtrip_chains_outside_tame2`); without any condition on the
   pulses everything but the lineage movements comes back, given acceptance (`ms_roundtrip_sizes_migs`).
+  §10 — the third fragment `Tame3` of C08 contains the chains: with `PulsesBelowOne g` (every pulse proportion below one)
+  in the place of `PulsesTame g`, the printed command is in `Tame3` (`toMs_output_tame3`), `from_ms` accepts it
+  (`ms_roundtrip_accepts3`), and the round trip holds (`ms_roundtrip_sem_all3`, `ms_roundtrip_growth_sem_all3`,
+  `ms_roundtrip_names3`); the only hypothesis left on the pulses is F6's.
 
   Chain printer ↔ parser ↔ source: `parser_arity_matches_printer` (the printer emits as many
   tokens as `Ms.arity` demands), `dest_matches_table`, and `Tables.tables_ms_model_arity` /
@@ -53,6 +57,7 @@ import DemesVerif.Proofs.MsAccValidators
 import DemesVerif.Proofs.MsNamesExamples
 import DemesVerif.Proofs.MsGrowExamples
 import DemesVerif.Proofs.MsTame2Examples
+import DemesVerif.Proofs.MsRT3Final
 import DemesVerif.Theorems.TablesMsModel
 namespace Demes.Theorems
 open Demes Demes.Ms Demes.Spec.C09
@@ -1063,6 +1068,201 @@ example : (returned (fourDemes longChain) 1).map (fun g' => g'.demes.map (fun d 
             ("deme4", ["deme1", "deme2", "deme3"], [25/64, 25/64, 7/32])] := by decide +kernel
 example : (returned (fourDemes longChain) 1).map (fun g' => g'.pulses.map (fun p => (p.sources, p.dest, p.proportions)))
     = some [(["deme1"], "deme2", [1/2]), (["deme2"], "deme3", [3/4])] := by decide +kernel
+
+/-! ## 10. The third fragment `Tame3` of C08: chains of pulses — the order clause of `PulsesTame` removed
+
+§9 left the order clause of `PulsesTame` as a hypothesis of the method: the chains of pulses (a pulse into the source of
+a pulse listed later, at one time) lie outside `Tame'` and `Tame2`, although `from_ms` converts them correctly.  C08 now
+proves its refinement on a third fragment, `Tame3` (`Theorems/C08.lean` §12): in every time group, (1) every move goes
+out of a population that existed before the group (the population an `-es` creates for the `-ej` right after it does
+not count), (2) no population **joined** in the group is the target of a move of the group, (3) `0 < p ≤ 1` for every
+`-es`.  A chain of pulses has this shape — both moves are `-es`/`-ej` pairs with `q < 1`, nothing is joined — and so has
+every time group `to_ms` writes for a graph whose pulse proportions are below one: the only joins are the last ancestors
+of the demes that start at the time, and in a valid graph neither a pulse nor an ancestry goes into a deme that starts at
+that very time (`Proofs.MsRT.jnt_dpMoves`).
+
+So with `PulsesBelowOne g` (Spec/C09.lean: every pulse proportion is below one — the first clause of `PulsesTame`, which is
+forced by F6) in the place of `PulsesTame g`:
+
+* `toMs_output_tame3` / `toMs_output_tame3_growth` — the parser reads the printed command as a command in `Tame3`;
+* `ms_roundtrip_accepts3` / `ms_roundtrip_growth_accepts3` — `from_ms` accepts it (the acceptance invariants of §6 used the
+  fragment only to know that the target of a move is still alive at the end of its group, and that a row of the
+  lineage-movement matrix that keeps nothing at home belongs to a joined population: the first is clause (2), the second
+  holds for every list of moves);
+* `ms_roundtrip_sem3`, `ms_roundtrip_sem_all3`, `ms_roundtrip_growth_sem_all3`, `ms_roundtrip_names3` — the theorems of §§6–8
+  with `PulsesTame g` replaced by `PulsesBelowOne g`.
+
+After this the only hypothesis on the pulses is "every proportion is below one" (F6: `ms_roundtrip_full_pulse_outside3`). -/
+
+open Demes.Spec.C08 (Tame3)
+open Demes.Proofs.MsRT3 (acceptHyps3 growHyps3 frags3Of saChain)
+
+/-- **`Tame3` of the printed command from `PulsesBelowOne` of the graph** (constant sizes).  For a valid ms-expressible
+graph of constant sizes whose pulse proportions are below one, `N0 > 0`, well-formed `samples` and a codec that covers
+the numbers of the command: the ms parser reads the printed command as a command in `Tame3`. -/
+theorem toMs_output_tame3 (c : NumCodec) (sa : Growth → String) {g : Graph} (hv : Spec.validGraph g = true)
+    (hx : MsExpressible g = true) (hcs : ConstSizes g = true) (hpb : PulsesBelowOne g = true) {N0 : Q} (hN : 0 < N0)
+    {samples : Option (List Int)} (hs : samplesOk g samples = true) {toks : List (Tok Growth)}
+    (htoks : toMs g N0 samples = .ok toks) (hc : CodecCovers c toks) :
+    ∃ pr, Spec.MsSem.parse (renderG c sa toks) = .ok pr ∧ Tame3 pr = true :=
+  Proofs.MsRT3.toMs_tame3 c sa hv hx hcs hpb hN hs htoks hc
+
+/-- the same with exponential epochs (hypotheses of §8) -/
+theorem toMs_output_tame3_growth (c : NumCodec) (sa : Growth → String) {g : Graph} (hv : Spec.validGraph g = true)
+    (hx : MsExpressible g = true) (hpb : PulsesBelowOne g = true) {N0 : Q} (hN : 0 < N0)
+    {samples : Option (List Int)} (hs : samplesOk g samples = true) {toks : List (Tok Growth)}
+    (htoks : toMs g N0 samples = .ok toks) (hc : CodecCovers c toks)
+    (hsa : GrowthPrinter sa (epochGrowths g N0)) :
+    ∃ pr, Spec.MsSem.parse (renderG c sa toks) = .ok pr ∧ Tame3 pr = true :=
+  Proofs.MsRT3.toMs_tame3V c sa hv hx hpb hN hs htoks hc hsa
+
+/-- `PulsesTame` implies `PulsesBelowOne` (it is its first clause) -/
+theorem pulsesBelowOne_of_pulsesTame {g : Graph} (h : PulsesTame g = true) : PulsesBelowOne g = true :=
+  Proofs.MsRT.pulsesBelowOne_of_tame h
+
+/-- **Acceptance.**  `ms_roundtrip_accepts` with `PulsesBelowOne g` in place of `PulsesTame g`: `from_ms` accepts the
+command `to_ms` prints for every valid ms-expressible graph of constant sizes whose pulse proportions are below one. -/
+theorem ms_roundtrip_accepts3 (c : NumCodec) (sa : Growth → String) {g : Graph} (hv : Spec.validGraph g = true)
+    (hx : MsExpressible g = true) (hcs : ConstSizes g = true) (hpb : PulsesBelowOne g = true) {N0 : Q} (hN : 0 < N0)
+    {samples : Option (List Int)} (hs : samplesOk g samples = true) {toks : List (Tok Growth)}
+    (htoks : toMs g N0 samples = .ok toks) (hc : CodecCovers c toks) :
+    ∃ mg, fromMs (renderG c sa toks) N0 none = .ok mg := by
+  obtain ⟨mg, h, _⟩ := Proofs.MsRT3.ms_roundtrip_accepts3 c sa hv hx hcs hpb hN hs htoks hc
+  exact ⟨mg, h⟩
+
+/-- **Acceptance with exponential epochs**: `ms_roundtrip_growth_accepts` with `PulsesBelowOne g`; the returned graph is
+valid. -/
+theorem ms_roundtrip_growth_accepts3 (c : NumCodec) (sa : Growth → String) {g : Graph} (hv : Spec.validGraph g = true)
+    (hx : MsExpressible g = true) (hpb : PulsesBelowOne g = true) {N0 : Q} (hN : 0 < N0)
+    {samples : Option (List Int)} (hs : samplesOk g samples = true) {toks : List (Tok Growth)}
+    (htoks : toMs g N0 samples = .ok toks) (hc : CodecCovers c toks) (hsa : GrowthPrinter sa (epochGrowths g N0)) :
+    ∃ mg, fromMs (renderG c sa toks) N0 none = .ok mg ∧ Spec.validGraph mg.graph = true := by
+  obtain ⟨mg, h, _, hvalid⟩ := Proofs.MsRT3.ms_roundtrip_growth_accepts3 c sa hv hx hpb hN hs htoks hc hsa
+  exact ⟨mg, h, hvalid⟩
+
+/-- **Graph → ms → graph** with exact ancestry proportions: `ms_roundtrip_sem` with `PulsesBelowOne g` in place of
+`PulsesTame g`. -/
+theorem ms_roundtrip_sem3 (c : NumCodec) (sa : Growth → String) {g : Graph} (hv : Spec.validGraph g = true)
+    (hx : MsExpressible g = true) (hex : ExactProportions g = true) (hcs : ConstSizes g = true)
+    (hpb : PulsesBelowOne g = true)
+    {N0 : Q} (hN : 0 < N0) {samples : Option (List Int)} (hs : samplesOk g samples = true)
+    {toks : List (Tok Growth)} (htoks : toMs g N0 samples = .ok toks) (hc : CodecCovers c toks) :
+    ∃ mg sem rs gs, fromMs (renderG c sa toks) N0 none = .ok mg
+      ∧ msSem (renderG c sa toks) N0 = .ok sem ∧ resultSem mg = .ok rs
+      ∧ graphSem (inGenerations g) none = .ok gs
+      ∧ semEquiv sem rs = true ∧ SemRefines sem gs ∧ SemRefines rs gs :=
+  Proofs.MsRT3.ms_roundtrip_sem3 c sa hv hx hex hcs hpb hN hs htoks hc
+
+/-- **Graph → ms → graph, for every valid ms-expressible graph of constant sizes whose pulse proportions are below
+one** — chains of pulses at one time included.  `ms_roundtrip_sem_all` with `PulsesBelowOne g` in place of `PulsesTame g`:
+`from_ms(to_ms(g, N0), N0)` returns a graph `mg`; the printed command has a meaning `sem` under the ms interpreter,
+equivalent to the observable `rs` of `mg`; and both describe the demography of `normalizeProportions g` on the lifetimes
+of its demes (`SemRefines`: populations, lifetimes, sizes at every time, migration rates, lineage movements). -/
+theorem ms_roundtrip_sem_all3 (c : NumCodec) (sa : Growth → String) {g : Graph} (hv : Spec.validGraph g = true)
+    (hx : MsExpressible g = true) (hcs : ConstSizes g = true) (hpb : PulsesBelowOne g = true)
+    {N0 : Q} (hN : 0 < N0) {samples : Option (List Int)} (hs : samplesOk g samples = true)
+    {toks : List (Tok Growth)} (htoks : toMs g N0 samples = .ok toks) (hc : CodecCovers c toks) :
+    ∃ mg sem rs gs, fromMs (renderG c sa toks) N0 none = .ok mg
+      ∧ msSem (renderG c sa toks) N0 = .ok sem ∧ resultSem mg = .ok rs
+      ∧ graphSem (inGenerations (normalizeProportions g)) none = .ok gs
+      ∧ semEquiv sem rs = true ∧ SemRefines sem gs ∧ SemRefines rs gs :=
+  Proofs.MsRT3.ms_roundtrip_sem_all3 c sa hv hx hcs hpb hN hs htoks hc
+
+/-- **Graph → ms → graph with exponential epochs**: `ms_roundtrip_growth_sem_all` with `PulsesBelowOne g` in place of
+`PulsesTame g`. -/
+theorem ms_roundtrip_growth_sem_all3 (c : NumCodec) (sa : Growth → String) {g : Graph} (hv : Spec.validGraph g = true)
+    (hx : MsExpressible g = true) (hpb : PulsesBelowOne g = true)
+    {N0 : Q} (hN : 0 < N0) {samples : Option (List Int)} (hs : samplesOk g samples = true)
+    {toks : List (Tok Growth)} (htoks : toMs g N0 samples = .ok toks) (hc : CodecCovers c toks)
+    (hsa : GrowthPrinter sa (epochGrowths g N0)) :
+    ∃ mg sem rs gs, fromMs (renderG c sa toks) N0 none = .ok mg
+      ∧ msSem (renderG c sa toks) N0 = .ok sem ∧ resultSem mg = .ok rs
+      ∧ graphSem (inGenerations (normalizeProportions g)) none = .ok gs
+      ∧ semEquiv sem rs = true
+      ∧ SemRefines sem (regrow (growthVal sa) N0 gs) ∧ SemRefines rs (regrow (growthVal sa) N0 gs)
+      ∧ SemRefinesUpToGrowth sem gs ∧ SemRefinesUpToGrowth rs gs :=
+  Proofs.MsRT3.ms_roundtrip_growth_sem_all3 c sa hv hx hpb hN hs htoks hc hsa
+
+/-- **Graph → ms → graph with the same `N0` and the same deme names**: `ms_roundtrip_names` (§7) with `PulsesBelowOne g`
+in place of `PulsesTame g`. -/
+theorem ms_roundtrip_names3 (c : NumCodec) (sa : Growth → String) {g : Graph} (hv : Spec.validGraph g = true)
+    (hx : MsExpressible g = true) (hcs : ConstSizes g = true) (hpb : PulsesBelowOne g = true)
+    {N0 : Q} (hN : 0 < N0) {samples : Option (List Int)} (hs : samplesOk g samples = true)
+    {toks : List (Tok Growth)} (htoks : toMs g N0 samples = .ok toks) (hc : CodecCovers c toks) :
+    ∃ mg mg' sem rs gs, fromMs (renderG c sa toks) N0 none = .ok mg
+      ∧ fromMs (renderG c sa toks) N0 (some (g.demes.map (·.name))) = .ok mg'
+      ∧ mg'.graph = renameDemes mg.graph (Proofs.FromMs.nameMap (g.demes.map (·.name)))
+      ∧ mg'.table = mg.table ∧ mg'.doc = mg.doc
+      ∧ Spec.validGraph mg'.graph = true ∧ mg'.graph.timeUnits = "generations" ∧ mg'.graph.generationTime = 1
+      ∧ (mg'.graph.demes.map (·.name)).Perm (g.demes.map (·.name))
+      ∧ (StartsSorted g = true → mg'.graph.demes.map (·.name) = g.demes.map (·.name))
+      ∧ msSem (renderG c sa toks) N0 = .ok sem
+      ∧ resultSem mg = .ok rs ∧ Spec.C08.resultSemNamed mg' (g.demes.map (·.name)) = .ok rs
+      ∧ graphSem (inGenerations (normalizeProportions g)) none = .ok gs
+      ∧ semEquiv sem rs = true ∧ SemRefines sem gs ∧ SemRefines rs gs :=
+  Proofs.MsRT3.ms_roundtrip_names3 c sa hv hx hcs hpb hN hs htoks hc
+
+/-! ### the boundary, with its witnesses -/
+
+/-- **the chains of pulses are inside.**  `chainGraph` (`A → B`, `B → C` at one time), `fourDemes startPulsesChain`,
+`fourDemes longChain` (§9): every hypothesis of `ms_roundtrip_sem_all3` holds (`acceptHyps3`: valid, ms-expressible, constant
+sizes, `PulsesBelowOne`, `N0 > 0`, `to_ms` succeeds, the codec covers the command); the graphs are not `PulsesTame`; the
+printed commands are outside `Tame'` and `Tame2` and inside `Tame3` (`frags3Of`: the triple); and the conclusion, evaluated
+independently of the theorem: `from_ms` accepts, and the returned graph passes `refinesAt` — sizes, migrations and lineage
+movements — against the graph. -/
+theorem ms_roundtrip_chains_inside_tame3 :
+    [Proofs.MsRT.chainGraph, fourDemes startPulsesChain, fourDemes longChain].all
+        (fun g => acceptHyps3 g 1 && !PulsesTame g) = true
+    ∧ [Proofs.MsRT.chainGraph, fourDemes startPulsesChain, fourDemes longChain].map (fun g => frags3Of g 1)
+        = [some (false, false, true), some (false, false, true), some (false, false, true)]
+    ∧ [Proofs.MsRT.chainGraph, fourDemes startPulsesChain, fourDemes longChain].map (fun g => accepted g 1)
+        = [true, true, true]
+    ∧ roundTripAgainst Proofs.MsRT.chainGraph Proofs.MsRT.chainGraph 1 [0, 3, 4, 5] = some true
+    ∧ roundTripAgainst (fourDemes startPulsesChain) (fourDemes startPulsesChain) 1 [0, 3, 4, 5] = some true
+    ∧ roundTripAgainst (fourDemes longChain) (fourDemes longChain) 1 [0, 3, 4, 5] = some true :=
+  Proofs.MsRT3.chains_inside
+
+/-- **outside, and rejected (F6)**: a pulse of proportion 1 — valid, ms-expressible, of constant sizes; `PulsesBelowOne`
+fails; the printed command `-I 2 0 0 -es 1.0 2 0.0 -ej 1.0 3 1` is outside `Tame'`, `Tame2` and `Tame3`; `from_ms` rejects it -/
+theorem ms_roundtrip_full_pulse_outside3 :
+    Spec.validGraph (twoDemePulse 1) = true ∧ MsExpressible (twoDemePulse 1) = true ∧ ConstSizes (twoDemePulse 1) = true
+    ∧ PulsesBelowOne (twoDemePulse 1) = false ∧ acceptHyps3 (twoDemePulse 1) 1 = false
+    ∧ frags3Of (twoDemePulse 1) 1 = some (false, false, false)
+    ∧ accepted (twoDemePulse 1) 1 = false :=
+  Proofs.MsRT3.full_pulse_outside3
+
+/-! ### non-vacuity of §10 -/
+
+/-- `acceptHyps3` is the list of hypotheses, and the theorems apply — to the chains … -/
+example {g : Graph} {N0 : Q} (h : acceptHyps3 g N0 = true) : accepted g N0 = true :=
+  Proofs.MsRT3.accepted_of_hyps3 h
+example := Proofs.MsRT3.roundTrip3_of_hyps (g := Proofs.MsRT.chainGraph) (N0 := 1) (by decide +kernel)
+example := Proofs.MsRT3.roundTrip3_of_hyps (g := fourDemes longChain) (N0 := 1) (by decide +kernel)
+example := Proofs.MsRT3.names3_of_hyps (g := fourDemes startPulsesChain) (N0 := 1) (by decide +kernel)
+/-- … and to the graphs of §§5–9, which are `PulsesTame` -/
+example : [branchMig, admixture, twoDemePulse (1/2), twoEpochs, admixMig, fourDemes startPulses].map
+    (fun g => (acceptHyps3 g 1, frags3Of g 1))
+    = [(true, some (true, true, true)), (true, some (true, true, true)), (true, some (true, true, true)),
+       (true, some (true, true, true)), (true, some (true, true, true)), (true, some (true, true, true))] := by
+  decide +kernel
+
+/-- with exponential epochs: `growChain` (`chainGraph` with an exponential epoch in `B`) meets every hypothesis of
+`ms_roundtrip_growth_sem_all3` (`growHyps3`), is neither of constant sizes nor `PulsesTame`; the theorem applies, and the
+conclusion evaluated: `from_ms` accepts, the returned graph has the sizes of the graph with the printed growth rates -/
+example : growHyps3 saChain Proofs.MsGrow.growChain 1 = true ∧ ConstSizes Proofs.MsGrow.growChain = false
+    ∧ PulsesTame Proofs.MsGrow.growChain = false := by
+  have h := Proofs.MsRT3.growChain_growHyps3
+  exact ⟨h.1, h.2.1, h.2.2.1⟩
+example := Proofs.MsRT3.growRoundTrip3_of_hyps (sa := saChain) (g := Proofs.MsGrow.growChain) (N0 := 1)
+  Proofs.MsRT3.growChain_growHyps3.1
+example : acceptedV saChain Proofs.MsGrow.growChain 1 = true
+    ∧ (roundTripAgainstV saChain Proofs.MsGrow.growChain 1 [0, 3, 4, 5, 9, 10, 11]).map (·.1) = some true := by
+  decide +kernel
+
+/-- with the names of the graph: the named result has the names of `g`, in `g`'s order, and passes `refinesAt` -/
+example : Proofs.MsNames.namedRoundTripNames (fourDemes longChain) 1 = some ["A", "B", "C", "D"]
+    ∧ Proofs.MsNames.namedRoundTripOk (fourDemes longChain) 1 [0, 3, 4, 5] = true
+    ∧ Proofs.MsNames.namedRoundTripOk Proofs.MsRT.chainGraph 1 [0, 3, 4, 5] = true := by decide +kernel
 
 /-! ## Non-vacuity (§§1–5) -/
 
